@@ -338,7 +338,7 @@ def rich_programs(rng, n, values):
         ("fstring", 'from t | select {v = f"~FS~{c}~FS~{d}~FS~"}'),
         ("join", "from t | join side:left (from [{k = ~S~, w = ~S~}]) (c == k) | select {c, w}"),
         ("filter", "from t | filter c == ~S~ || c == ~S~ && d > ~I~ | sort {c} | take 3"),
-        ("kinds", "from t | select {a = ~D~, b = ~T~, c2 = ~TS~, e = ~B~, n = ~N~, f = ~F~, g = ~F~, i = ~NI~, j = ~I~, k = ~V~}"),
+        ("kinds", "from t | select {a = ~D~, b = ~T~, c2 = ~TS~, e = ~B~, n = ~N~, f = ~F~, g = ~F~, i = ~NI~, j = ~I~}"),
         ("intervals", "from t | filter d2 > (@2020-01-01 + ~V~) | select {a = d2 + ~V~, b = d2 - ~V~, c2 = ~V~, e = ~V~}"),
         ("datefmt", "from t | select {v = (d2 | date.to_text ~S~), w = ~S~}"),
         ("compare", "from t | select {v = (c | text.lower) == ~S~, w = (c | text.length) > ~I~, x = ~S~ + ~S~}"),
